@@ -51,6 +51,13 @@ def gen_cases(tier, seed, focus="roundtrip"):
         nf = r.choice([1, 2, 3, 5])
         specs = [G.gen_file(r, "disk", unique=j, length=r.choice(G.DISK_LEN + [r.randrange(0, 12000)])) for j in range(nf)]
         yield {"id": "perm/%d" % i, "kind": "own", "files": specs, "order": order}
+    # (e) pre-existing fragmentation: a foreign image (random chains and slots) to which the tool then adds files
+    for i in range(1500 if thorough else 120):
+        r = rng(seed, "disk", "mixed", i)
+        nf = r.choice([1, 2, 4, 6])
+        pre = [G.gen_file(r, "disk", unique=j, maxname=8, length=r.choice(G.DISK_LEN + [r.randrange(0, 9000)])) for j in range(nf)]
+        new = [G.gen_file(r, "disk", unique=50 + j, length=r.choice(G.DISK_LEN + [r.randrange(0, 12000)])) for j in range(r.choice([1, 2, 3]))]
+        yield {"id": "mixed/%d" % i, "kind": "mixed", "files": pre, "new": new, "gen": i}
     # (d) foreign images from the reference writer: chains in arbitrary order, fragmentation
     for i in range(4000 if thorough else 300):
         r = rng(seed, "disk", "foreign", i)
@@ -160,6 +167,26 @@ def _run_case(case, ctx):
                 ctx.outcome("add-failed:" + type(e).__name__)
         written = bytes(d.get_buffer())
         wit["order"] = case["order"]
+    elif case["kind"] == "mixed":
+        r = rng("mixed-disk", case["gen"], ctx.seed)
+        pre_img, style, chains = build_foreign(specs, r)
+        d = DiskFile(buffer=list(pre_img))
+        form = "fragmented." + style
+        stored = list(specs)
+        for s in case["new"]:
+            mediamon.set_form(form, {"lenclass": len_class(s), "kind": s["kind"]})
+            try:
+                d.add_file(G.to_coco(s))             # M8: fsck, old files untouched, only free granules used
+                stored.append(s)
+            except Exception as e:
+                ctx.outcome("add-failed:" + type(e).__name__)
+        written = bytes(d.get_buffer())
+        wit["chains"] = chains
+        # directory order is slot order: the tool takes the first free slot, which on a foreign image may precede old entries
+        by_name = {s["name"].upper()[:8]: s for s in stored}
+        order = [f["name"].decode("latin-1").rstrip().upper() for f in RD.fsck(written)[0]]
+        if sorted(order) == sorted(by_name):
+            stored = [by_name[n] for n in order]
     else:
         r = rng("foreign-disk", case["gen"], ctx.seed)
         written, style, chains = build_foreign(specs, r)
